@@ -523,7 +523,7 @@ theorem GOk.send_end {s : St} (h : GOk s) (k : Nat) (it : Item) (hit : it = .bye
       refine h.agree_free hone k ?_ ?_
       · constructor <;> rcases hit with rfl | rfl <;>
           simp [send, wake, hsh, hp, hpool, hin, poolWake, hup, hq, drain, freeWorkers, hfw, hb, poolServeOne, poolPlace,
-            poolConsume, poolFrames, endServe, release, closeConn, hsl] <;>
+            poolConsume, poolFrames, endServe, release, closeConn, hco, hsl] <;>
           (intro j hj; simp [set_cli_ne _ _ _ _ hj])
       · rcases hit with rfl | rfl <;>
           simpa (config := {decide := true}) [send, wake, hsh, hp, hpool, hin, poolWake, hup, hq, drain, freeWorkers, hfw,
@@ -905,7 +905,7 @@ theorem GOk.run {s : St} (h : GOk s) (ops : List Op) (hops : ∀ op ∈ ops, op.
     · split <;> (try split) <;> simp
     · simp
 @[simp] theorem poolPlace_cfg (s : St) (k : Nat) (r : Cli × Nat) : (poolPlace s k r).cfg = s.cfg := by
-  unfold poolPlace; split <;> simp
+  unfold poolPlace; split <;> (try split) <;> simp
 @[simp] theorem poolServeOne_cfg (s : St) (k : Nat) : (poolServeOne s k).cfg = s.cfg := by
   unfold poolServeOne; simp
 @[simp] theorem drain_cfg (l : List Nat) (s : St) : (drain l s).cfg = s.cfg := by
@@ -915,7 +915,7 @@ theorem GOk.run {s : St} (h : GOk s) (ops : List Op) (hops : ∀ op ∈ ops, op.
 @[simp] theorem poolWake_cfg (s : St) (k : Nat) : (poolWake s k).cfg = s.cfg := by
   unfold poolWake; split <;> simp
 @[simp] theorem poolUnblock_cfg (s : St) (k : Nat) : (poolUnblock s k).cfg = s.cfg := by
-  unfold poolUnblock; simp
+  unfold poolUnblock; split <;> simp
 @[simp] theorem untrackAll_cfg (s : St) : (untrackAll s).cfg = s.cfg := rfl
 @[simp] theorem poolBuild_cfg (s : St) (k : Nat) : (poolBuild s k).cfg = s.cfg := by
   unfold poolBuild; simp
@@ -944,6 +944,14 @@ theorem GOk.run {s : St} (h : GOk s) (ops : List Op) (hops : ∀ op ∈ ops, op.
   unfold supply; split
   · simp
   · split <;> (try split) <;> (try split) <;> simp
+
+@[simp] theorem poolRelease_cfg (s : St) (k : Nat) : (poolRelease s k).cfg = s.cfg := by
+  unfold poolRelease; simp only [drain_cfg]
+  split
+  · simp
+  · split
+    · split <;> simp
+    · simp
 
 theorem step_cfg {s s' : St} {o : Obs} (op : Op) (h : step s op = .ok (s', o)) : s'.cfg = s.cfg := by
   cases op with
